@@ -39,6 +39,8 @@ struct AAttr {
 
 const NAMES: &[&str] = &[
     "class", "style", "key", "ref", "onClick", "onFoo", "onUpdate:modelValue", "title", "xlink:href",
+    // namespaced names that merely start like the listener objects: ordinary props
+    "on:click", "nativeOn:focus",
 ];
 /// (jsx value text, definitely dynamic)
 const VALUES: &[(&str, bool)] = &[
@@ -101,7 +103,11 @@ fn alphabet() -> Vec<AAttr> {
     v
 }
 
-const ENV_IMPORT: &str = "import { x, f1, o1, p1, h1, ev1, dyn1, C1, C2, y, xs1 } from \"env\";\nlet m1 = 1;\n";
+const ENV_IMPORT: &str = "import { x, f1, o1, p1, h1, ev1, dyn1, C1, C2, y, xs1, NS, FragmentList } from \"env\";\nlet m1 = 1;\n";
+/// component hosts: bound, member (also with an HTML tag name / fragment-like name as the last
+/// property), unbound, names that start like `Fragment`
+const COMP_TAGS: &[&str] = &["C1", "C2", "NS.C", "NS.button", "NS.a.div", "Foo", "FragmentList", "NS.FragmentGroup"];
+const ELEM_TAGS: &[&str] = &["div", "span", "rect", "section"];
 
 fn env_json() -> Value {
     use crate::gen::jsx::*;
@@ -117,6 +123,16 @@ fn env_json() -> Value {
             ("dyn1".into(), v_str("dynArg")),
             ("C1".into(), v_comp("C1")),
             ("C2".into(), v_comp("C2")),
+            ("FragmentList".into(), v_comp("FragmentList")),
+            (
+                "NS".into(),
+                v_obj(vec![
+                    ("C", v_comp("NS.C")),
+                    ("button", v_comp("NS.button")),
+                    ("FragmentGroup", v_comp("NS.FragmentGroup")),
+                    ("a", v_obj(vec![("div", v_comp("NS.a.div"))])),
+                ]),
+            ),
             ("xs1".into(), v_arr(vec![v_str("a")])),
         ],
         globals: vec![("u1".into(), v_str("u1v"))],
@@ -125,8 +141,8 @@ fn env_json() -> Value {
     env.json()
 }
 
-fn attr_case(attrs: &[&AAttr], comp: bool, transform_on: bool, merge_props: bool) -> Case {
-    let tag = if comp { "C1" } else { "div" };
+fn attr_case(attrs: &[&AAttr], comp: bool, transform_on: bool, merge_props: bool, tag_ix: usize) -> Case {
+    let tag = if comp { COMP_TAGS[tag_ix % COMP_TAGS.len()] } else { ELEM_TAGS[tag_ix % ELEM_TAGS.len()] };
     let a: Vec<&str> = attrs.iter().map(|a| a.jsx.as_str()).collect();
     let src = format!("{ENV_IMPORT}export const e0 = <{tag} {} />;\n", a.join(" "));
     let opts = Opts {
@@ -154,6 +170,7 @@ fn attr_case(attrs: &[&AAttr], comp: bool, transform_on: bool, merge_props: bool
     case.extra = json!({"env": env_json(), "kind": "attrs", "comp": comp, "attrs": meta});
     case.nontrivial = attrs.iter().any(|a| a.dynamic || a.needs_full);
     case.label(if comp { "host=component" } else { "host=element" });
+    case.label(format!("tag={tag}"));
     case.label(format!("attrs={}", attrs.len()));
     case.label(format!("transformOn={transform_on} mergeProps={merge_props}"));
     for a in attrs {
@@ -424,7 +441,8 @@ impl Property for C13 {
                 let has_on = attrs.iter().any(|a| a.is_on);
                 let tons: &[bool] = if has_on { &[false, true] } else { &[false] };
                 for &ton in tons {
-                    cases.push(attr_case(attrs, comp, ton, true));
+                    let ix = cases.len() / 2;
+                    cases.push(attr_case(attrs, comp, ton, true, ix));
                 }
             }
         };
@@ -469,7 +487,8 @@ impl Property for C13 {
             }
             let ton = c.bool();
             let mp = c.chance(3, 4);
-            let mut case = attr_case(&picked, comp, ton, mp);
+            let tag_ix = c.pick(8);
+            let mut case = attr_case(&picked, comp, ton, mp, tag_ix);
             case.label("random-attrs");
             return case;
         }
